@@ -1,6 +1,7 @@
 import Driver.FsmDriver
 import Driver.SszDriver
 import Driver.BoardDriver
+import Driver.AlgDriver
 
 open Driver
 
@@ -27,11 +28,20 @@ partial def loopBoard (h : IO.FS.Stream) (out : IO.FS.Stream) (f : List Dc4bcVer
   out.putStrLn o
   loopBoard h out f'
 
+partial def loopAlg (h : IO.FS.Stream) (out : IO.FS.Stream) (st : AlgSt) : IO Unit := do
+  let line ← h.getLine
+  if line.isEmpty then return ()
+  let toks := (line.trimAscii.toString.splitOn " ").filter (· != "")
+  let (st', o) := algStep st toks
+  out.putStrLn o
+  loopAlg h out st'
+
 def main (args : List String) : IO UInt32 := do
   let stdin ← IO.getStdin
   let stdout ← IO.getStdout
   match args with
   | ["fsm"] => loopFsm stdin stdout {}; pure 0
+  | ["alg"] => loopAlg stdin stdout {}; pure 0
   | ["board"] => loopBoard stdin stdout []; pure 0
   | ["ssz"] => loopSsz stdin stdout ⟨Dc4bcVerif.Model.Tasks.bakedIndices.toArray⟩; pure 0
   | _ => IO.eprintln "usage: driver fsm|…"; pure 2
